@@ -337,7 +337,7 @@ def dynLine (st : Option DynState) (toks : List String) : Option DynState × Str
   | _, _ => (st, "bad-op")
 
 partial def loop (h : IO.FS.Stream) (out : IO.FS.Stream) (hist : Option HistState) (bm : List Nat := List.replicate 32 0)
-    (dyn : Option DynState := none) : IO Unit := do
+    (dyn : Option DynState := none) (snap : Option HistState := none) : IO Unit := do
   let line ← h.getLine
   if line.isEmpty then return ()
   let toks := (line.trimAscii.toString.splitOn " ").filter (· ≠ "")
@@ -345,29 +345,39 @@ partial def loop (h : IO.FS.Stream) (out : IO.FS.Stream) (hist : Option HistStat
   | "B" :: rest =>
     let (bm', s) := bundleLine bm rest
     out.putStrLn s
-    loop h out hist bm' dyn
+    loop h out hist bm' dyn snap
   | "D" :: rest =>
     let (dyn', s) := dynLine dyn rest
     out.putStrLn s
-    loop h out hist bm dyn'
+    loop h out hist bm dyn' snap
+  | ["H", "snap"] =>
+    match hist with
+    | none => out.putStrLn "bad-op"; loop h out hist bm dyn snap
+    | some st => out.putStrLn ("ok | " ++ digest st); loop h out hist bm dyn (some st)
+  | "H" :: "xhop" :: rest =>
+    match hist, snap with
+    | some st, some sn => out.putStrLn (((xhopLine st sn rest).getD "bad-op") ++ " | " ++ digest st)
+    | some st, none => out.putStrLn ("err NoSnapshot | " ++ digest st)
+    | none, _ => out.putStrLn "bad-op"
+    loop h out hist bm dyn snap
   | "H" :: "xswap" :: rest =>
     match hist with
     | none => out.putStrLn "bad-op"
     | some st => out.putStrLn (((xswapLine st rest).getD "bad-op") ++ " | " ++ digest st)
-    loop h out hist bm dyn
+    loop h out hist bm dyn snap
   | "H" :: rest =>
     let (hist', s) := histLine hist rest
     out.putStrLn s
-    loop h out hist' bm dyn
+    loop h out hist' bm dyn snap
   | ["poff", start, tick, ts] =>
     match start.toInt?, tick.toInt?, ts.toNat? with
     | some start, some tick, some ts =>
       out.putStrLn (match pinoUsableOffset start tick ts with | some k => s!"ok {k}" | none => "ok none")
     | _, _, _ => out.putStrLn "bad-op"
-    loop h out hist bm dyn
+    loop h out hist bm dyn snap
   | "sda" :: _ | "sdb" :: _ | "sna" :: _ | "snb" :: _ | "sle" :: _ | "spt" :: _ | "slp" :: _ | "stp" :: _ =>
     out.putStrLn ((sdkLine toks).getD "bad-op")
-    loop h out hist bm dyn
+    loop h out hist bm dyn snap
   | ["tfee", bps, mx, _fut, amt, inc] =>
     match bps.toNat?, mx.toNat?, amt.toNat?, b01 inc with
     | some bps, some mx, some amt, some inc =>
@@ -380,18 +390,18 @@ partial def loop (h : IO.FS.Stream) (out : IO.FS.Stream) (hist : Option HistStat
         let r := excludedAmount (some f) amt
         out.putStrLn s!"ok {r.1} {r.2}"
     | _, _, _, _ => out.putStrLn "bad-op"
-    loop h out hist bm dyn
+    loop h out hist bm dyn snap
   | "afm" :: rest =>
     out.putStrLn ((afmLine rest).getD "bad-op")
-    loop h out hist bm dyn
+    loop h out hist bm dyn snap
   | "pmod" :: rest =>
     out.putStrLn ((pmodLine rest).getD "bad-op")
-    loop h out hist bm dyn
+    loop h out hist bm dyn snap
   | _ =>
     match stepPure toks with
     | some s => out.putStrLn s
     | none => out.putStrLn "bad-op"
-    loop h out hist bm dyn
+    loop h out hist bm dyn snap
 
 def driverMain : IO Unit := do
   let out ← IO.getStdout
